@@ -19,7 +19,8 @@ Inputs == LET c == G!Corpus
 
 VARIABLES t, out, pc
 Init == t \in Inputs /\ out = t /\ pc = "in"
-Next == pc = "in" /\ out' = Simp(t) /\ pc' = "out" /\ UNCHANGED t
+\* both placements of a product's constant factor (it depends on creation order in the code) are explored
+Next == pc = "in" /\ out' \in {Simp(t), SimpAlt(t)} /\ pc' = "out" /\ UNCHANGED t
 Spec == Init /\ [][Next]_<<t, out, pc>>
 
 Ev == [in |-> t, out |-> out, rin |-> TypeOf(t), rout |-> TypeOf(out)]
